@@ -17,7 +17,7 @@ class FaultSync(Suite):
             "Small trees with every position (thorough) / sampled positions (quick), and wide trees (140..600 entries: > 132 requests, > 2 x 128 queued stats, early and late faults); non-trivial = distinct (tree, fault)")
 
     def gen(self, rng, tier):
-        n = {"quick": 500, "thorough": 12000, "search": 150}[tier]
+        n = {"quick": 1000, "thorough": 12000, "search": 150}[tier]
         ops = []
         while len(ops) < n:
             wide = rng.random() < 0.1
@@ -33,7 +33,7 @@ class FaultSync(Suite):
             dst = [] if rng.random() < 0.6 else gen.mutate_disk_tree(rng, tree)
             nent = len(tree)
             files = [e for e in tree if e["t"] == "file"]
-            kinds = STREAM_FAULTS + ["cancel", "walk", "hasher", "notify", "kill"] + (["read"] if files else [])
+            kinds = STREAM_FAULTS + ["cancel", "cancelS", "walk", "hasher", "notify", "kill"] + (["read"] if files else [])
             reps = 1 if tier == "quick" else 2
             for _ in range(reps):
                 kind = rng.choice(kinds)
@@ -44,6 +44,9 @@ class FaultSync(Suite):
                     f["at"] = rng.randint(1, 2 * nent + 6)
                 elif kind in ("cancel", "kill"):
                     f["at"] = rng.randint(1, 4 * nent + 6)
+                elif kind == "cancelS":
+                    # the caller of Send cancels while the source is still being walked; the stream stays usable
+                    f["at"] = rng.randint(1, nent)
                 elif kind == "walk":
                     f["at"] = rng.randint(1, nent)
                     if rng.random() < 0.6:
@@ -60,6 +63,8 @@ class FaultSync(Suite):
                     f["off"] = rng.choice([0, 1, e.get("size", 0) // 2, max(0, e.get("size", 0) - 1)])
                 ops.append({"op": "fault", "src": {"kind": "mem", "tree": tree}, "dst": dst, "fault": f,
                             "opt": {"notify": True, "cap": rng.choice([0, 1, 4, 32]), "seed": rng.randrange(1 << 30)}})
+                if kind == "cancelS" and rng.random() < 0.5:
+                    ops[-1]["src"]["kind"] = "disk"     # the library's own directory walk is the one that is cancelled
                 if f.get("errno") and stack_filter:
                     ops[-1]["sfilter"] = {}
         return ops[:n]
@@ -71,7 +76,7 @@ class FaultSync(Suite):
             if not isinstance(i, dict) or "view" not in i or "after" not in i:
                 out.append({"op": "fault", "view": [], "before": [], "mid": [], "after": [], "opt": o["opt"]})
             else:
-                out.append({"op": "fault", "view": i["view"], "before": i["before"], "mid": i["mid"], "after": i["after"], "opt": o["opt"]})
+                out.append({"op": "fault", "view": i["view"], "viewkind": o["src"]["kind"], "before": i["before"], "mid": i["mid"], "after": i["after"], "opt": o["opt"]})
         return out
 
     def judge(self, op, impl, model):
